@@ -67,6 +67,7 @@ fn redirect_stalls(sink: &mut Sink) {
 
 pub fn generate(seed: u64, tier: &str, sink: &mut Sink) {
     redirect_stalls(sink);
+    neighbours(sink);
     let mut rng = Rng::new(seed ^ 0xC19);
     let thorough = tier == "thorough";
     let n = if thorough { 8000 } else { 700 };
@@ -207,5 +208,82 @@ pub fn generate(seed: u64, tier: &str, sink: &mut Sink) {
                 oracle: o,
             });
         }
+    }
+}
+
+/// What has arrived for ONE response can be read whatever the peers of OTHER responses of the process are doing:
+/// while another thread waits for a silent server (at a chunk boundary, inside a size line, in the trailer
+/// section, in a Content-Length body), a chunked response whose chunks arrive 200 ms apart is delivered chunk by
+/// chunk as they arrive (seed C19-seed12: a process-wide lock held across the read of a chunk-size line).
+/// Real loopback sockets and real time.
+fn neighbours(sink: &mut Sink) {
+    use crate::p_c13::{server, Srv};
+    use std::io::Read;
+    use std::time::{Duration, Instant};
+    let stalled: [(&str, &[u8]); 4] = [
+        ("chunk-boundary", b"HTTP/1.1 200 OK\r\nTransfer-Encoding: chunked\r\n\r\n5\r\nhello\r\n"),
+        ("size-line", b"HTTP/1.1 200 OK\r\nTransfer-Encoding: chunked\r\n\r\n5\r\nhello\r\n1"),
+        ("trailers", b"HTTP/1.1 200 OK\r\nTransfer-Encoding: chunked\r\n\r\n5\r\nhello\r\n0\r\nX-T: 1\r\n"),
+        ("length", b"HTTP/1.1 200 OK\r\nContent-Length: 50\r\n\r\nhello"),
+    ];
+    let mut hs = vec![];
+    for (sname, wire) in stalled {
+        let wire = wire.to_vec();
+        hs.push(std::thread::spawn(move || {
+            // the neighbour: reads its response to the end on a thread of its own; its server goes silent for 2.5 s
+            let (aport, _a) = server(vec![vec![Srv::ReadRequest, Srv::Send(wire), Srv::Hold(2500)]]);
+            let held = std::thread::spawn(move || {
+                let _ = attohttpc::get(format!("http://127.0.0.1:{}/", aport)).read_timeout(Duration::from_millis(3000)).send().and_then(|r| r.bytes());
+            });
+            std::thread::sleep(Duration::from_millis(250));
+            // this response: three chunks 200 ms apart, then the last-chunk with a trailer field
+            let (bport, _b) = server(vec![vec![
+                Srv::ReadRequest,
+                Srv::Send(b"HTTP/1.1 200 OK\r\nTransfer-Encoding: chunked\r\n\r\n3\r\none\r\n".to_vec()),
+                Srv::Sleep(200),
+                Srv::Send(b"3\r\ntwo\r\n".to_vec()),
+                Srv::Sleep(200),
+                Srv::Send(b"5\r\nthree\r\n0\r\nX-Sum: 3\r\n\r\n".to_vec()),
+                Srv::Hold(200),
+            ]]);
+            let t0 = Instant::now();
+            let mut got: Vec<(u64, Vec<u8>)> = vec![];
+            let r = attohttpc::get(format!("http://127.0.0.1:{}/", bport)).read_timeout(Duration::from_millis(3000)).send();
+            let o: Result<(), (String, String)> = match r {
+                Err(e) => Err(("neighbour-setup".to_string(), format!("{:?}", e.kind()))),
+                Ok(mut resp) => {
+                    let mut buf = [0u8; 64];
+                    let mut err = None;
+                    loop {
+                        match resp.read(&mut buf) {
+                            Ok(0) => break,
+                            Ok(n) => got.push((t0.elapsed().as_millis() as u64, buf[..n].to_vec())),
+                            Err(e) => {
+                                err = Some(e.to_string());
+                                break;
+                            }
+                        }
+                    }
+                    let total = t0.elapsed().as_millis() as u64;
+                    let all: Vec<u8> = got.iter().flat_map(|g| g.1.clone()).collect();
+                    if let Some(e) = err {
+                        Err(("neighbour-read-error".to_string(), e))
+                    } else if all != b"onetwothree" {
+                        Err(("neighbour-wrong-bytes".to_string(), format!("{:?}", String::from_utf8_lossy(&all))))
+                    } else if total > 400 + 800 {
+                        // the chunks arrive at 0 / 200 / 400 ms: everything is there after 400 ms
+                        Err((format!("withheld-while-neighbour-stalls-{}", sname), format!("a chunked response whose last byte arrived after 400 ms was only read to its end after {} ms (reads returned at {:?} ms) while another response of the process waited for its silent server ({})", total, got.iter().map(|g| g.0).collect::<Vec<_>>(), sname)))
+                    } else {
+                        Ok(())
+                    }
+                }
+            };
+            drop(held);
+            (sname, o)
+        }));
+    }
+    for h in hs {
+        let (sname, o) = h.join().unwrap();
+        sink.push(Case { tags: vec!["kind=neighbour".into(), format!("neighbour-stalled-in={}", sname)], op: format!("nop neighbour {}", sname), impl_line: "nop".into(), oracle: o });
     }
 }
